@@ -69,6 +69,21 @@ fn main() {
     report(s);
 }
 
+// target of injected calls (`call probe_id 7`): does not touch TICK
+#[no_mangle]
+pub static mut PROBED: i64 = 0;
+// never written by the program: a watchpoint armed on it can never fire, on any hardware
+#[no_mangle]
+pub static mut WATCHME: u64 = 0;
+#[inline(never)]
+#[no_mangle]
+pub fn probe_id(a: i64) -> i64 {
+    unsafe {
+        PROBED += a;
+    }
+    a
+}
+
 #[inline(never)]
 fn gate2() {
     extern "C" {
@@ -86,6 +101,9 @@ fn gate2() {
 #[inline(never)]
 fn report(s: i64) {
     gate2();
+    if s == i64::MIN {
+        probe_id(s + unsafe { WATCHME } as i64);
+    }
     println!("TICK={} S={}", unsafe { TICK }, s);
     std::process::exit((s.rem_euclid(100)) as i32);
 }
